@@ -43,8 +43,8 @@ CTX = Ctx()
 
 SCHEMES = ["explicit_euler", "generalized_rush_larsen", "forward_explicit_euler",
            "forward_generalized_rush_larsen", "hybrid_rush_larsen"]
-NAMES = ["m", "cell", "model_2"]
-DAMAGE = ["delete", "empty", "truncate", "truncate", "flip", "flip", "badutf8", "dir", "dup_tail"]
+NAMES = ["m", "cell", "model_2", "cell.v2"]
+DAMAGE = ["delete", "empty", "truncate", "truncate", "flip", "flip", "badutf8", "dir", "dup_tail", "crlf", "bom"]
 ARMS = [("read_eio", "model"), ("read_eacces", "model"), ("vanish", "model"), ("read_eio", "config"),
         ("read_eacces", "config"), ("write_enospc", "output"), ("write_partial", "output")]
 
@@ -125,7 +125,7 @@ def build_machine():
             o["outname"] = out
         cfgpick = None
         if cmd != "convert":
-            cfgpick = draw(st.sampled_from([None, None, None, "cfg/my.toml", "cfg/my.toml", "cfg/missing.toml", "pyproject.toml"]))
+            cfgpick = draw(st.sampled_from([None, None, None, "cfg/my.toml", "cfg/my.toml", "cfg/my.toml", "cfg/missing.toml", "pyproject.toml"]))
         if draw(st.integers(0, 5)) == 0:
             o["verbose"] = True
         arm = None
@@ -176,13 +176,16 @@ def build_machine():
                                mirror_salt=plan["hyp_seed"] * 1000003 + CTX.session,
                                mirror_rate=plan.get("mirror_rate", 32))
 
-        @initialize(idx=st.integers(0, len(pool) - 1), name=st.sampled_from(NAMES), git=st.sampled_from([True, True, True, False]))
-        def start(self, idx, name, git):
+        @initialize(idx=st.integers(0, len(pool) - 1), name=st.sampled_from(NAMES), git=st.sampled_from([True, True, True, False]),
+                    cfg_where=st.sampled_from([None, "explicit", "explicit", "pyproject"]), cfg=cfg_strategy)
+        def start(self, idx, name, git, cfg_where, cfg):
             if self.noop:
                 return
             self.world.put_model(name, ".", "ode", idx)
             if git:
                 self.world.git_marker(True)
+            if cfg_where:
+                self.world.put_config(cfg_where, cfg, False)
 
         @rule(name=st.sampled_from(NAMES), where=st.sampled_from([".", ".", "sub"]),
               kind=st.sampled_from(["ode", "ode", "ode", "ode", "cellml"] if heavy else ["ode"] * 9 + ["cellml"]),
